@@ -29,7 +29,7 @@ RULE = (
     '" +HH:MM" (offsets 0, -05:00, +05:30, +09:00, -11:00); unit days | '
     'hours | minutes | seconds; calendar attribute absent | standard | '
     'gregorian | proleptic_gregorian | noleap | 365_day | all_leap | 366_day '
-    '(also mixed case); 1-6 strictly increasing stored numbers (0, whole, '
+    '(also mixed case); 1-6 strictly monotonic stored numbers (ascending; descending in 1/4 of the cases without bounds) (0, whole, '
     'dyadic and arbitrary fractions, up to +-2 centuries, dtype f8/f4/i4/i8); '
     'bounds=False | True with a contiguous time_bounds variable | True '
     'derived from uniform centres.  A raise of getTimes is a pass '
@@ -80,7 +80,6 @@ RULE = (
 ASSUMPTIONS = ['stdlib datetime (proleptic Gregorian day count) for instants '
                '>= 1600; cftime.num2date as second opinion for the fixed-'
                'length calendars',
-               'descending time axes are left to C16 (time2idx front-end)',
                'numpy converts timezone-aware datetimes to UTC when building '
                'datetime64 arrays (checked on the installed numpy 2.5)']
 BUDGET = {'quick': dict(examples=14400, max_s=200),
@@ -300,6 +299,10 @@ def case_cf(draw):
             vals = [float(np.float32(v)) for v in vals]
         if dtype == 'i4':
             vals = [v for v in vals if -2 ** 31 <= v < 2 ** 31]
+    if bounds == 'none' and len(vals) >= 2 and draw(st.integers(0, 3)) == 0:
+        # time axis stored in descending order (every clause is elementwise;
+        # time2idx(getTimes()) must still be 0..n-1)
+        vals = vals[::-1]
     return dict(kind='cf', ref=[y, mo, d, h, mi, s], off=off,
                 spell=dict(pad=pad, sep=sep, tfmt=tfmt, suffix=suffix),
                 unit=unit, calendar=cal, dtype=dtype, values=vals,
@@ -634,6 +637,8 @@ def check_cf(spec, r):
         r.label('calendar-mixed-case')
     if spec.get('clean'):
         r.label('fixed-clean-input')
+    if n >= 2 and stored[0] > stored[-1]:
+        r.label('axis:descending')
     frac = any(Fraction(v).denominator != 1 for v in stored)
     if frac:
         r.label('fractional-values')
